@@ -203,3 +203,143 @@ Theorem bfill_total : forall b, buf_inv b -> blen b < bsize b -> bfill b <> None
 Proof.
   intros b H1 H2. destruct (bfill_spec b H1 H2) as (b' & F & _). congruence.
 Qed.
+
+(* ---------------------------------------------------------------- conservation of source bytes *)
+(* bytes the source will still deliver *)
+Fixpoint src_total (cs : list (list N)) : N :=
+  match cs with [] => 0 | c :: r => N.of_nat (length c) + src_total r end.
+
+(* the recorded error is never ErrBufferFull (fill records EOF, the source error or ErrNoProgress) *)
+Definition berr_ok (b : bufrd) : Prop := berr b <> Some BBufferFull.
+
+Lemma take_upto_total : forall l space acc cnt got n lft,
+  take_upto l space acc cnt = (got, n, lft) ->
+  N.of_nat (length got) + N.of_nat (length lft) = N.of_nat (length acc) + N.of_nat (length l).
+Proof.
+  induction l as [|x r IH]; intros space acc cnt got n lft H; cbn [take_upto] in H.
+  - inversion H; subst. rewrite frev_length. cbn [length]. lia.
+  - destruct (space =? 0).
+    + inversion H; subst. rewrite frev_length. lia.
+    + apply IH in H. cbn [length] in *. lia.
+Qed.
+
+Lemma src_read_total : forall cs t space got n err cs',
+  src_read cs t space = (got, n, err, cs') ->
+  n + src_total cs' = src_total cs /\ err <> Some BBufferFull.
+Proof.
+  intros cs t space got n err cs' H. unfold src_read in H. destruct cs as [|c rest].
+  - inversion H; subst. cbn. split; [lia|]. destruct t; discriminate.
+  - destruct (take_upto c space [] 0) as [[g k] lft] eqn:E. inversion H; subst.
+    pose proof (take_upto_total _ _ _ _ _ _ _ E) as T. pose proof (take_upto_spec _ _ _ _ _ _ _ E) as (S1 & _).
+    cbn [length] in *. split; [|discriminate].
+    destruct lft as [|y lft']; cbn [src_total length] in *; lia.
+Qed.
+
+Lemma fill_loop_total : forall i b,
+  berr_ok b ->
+  let b' := fill_loop i b in
+  src_total (chunks b') + blen b' = src_total (chunks b) + blen b /\ berr_ok b'.
+Proof.
+  induction i as [|k IH]; intros b Hok; cbn [fill_loop].
+  - cbn. split; [reflexivity|]. unfold berr_ok; cbn. discriminate.
+  - destruct (src_read (chunks b) (term b) (bsize b - blen b)) as [[[got n] err] cs] eqn:E.
+    apply src_read_total in E. destruct E as (E1 & E2).
+    destruct err as [e|].
+    + cbn. split; [lia|]. unfold berr_ok; cbn. exact E2.
+    + destruct (0 <? n).
+      * cbn. split; [lia|]. exact Hok.
+      * specialize (IH (mkBuf (bsize b) (bbuf b ++ got) (blen b + n) (berr b) cs (term b) (consumed b)) Hok).
+        cbn in IH. destruct IH as (I1 & I2). split; [cbn in *; lia|exact I2].
+Qed.
+
+Lemma peek_loop_total : forall fuel b n b',
+  peek_loop fuel b n = Some b' -> berr_ok b ->
+  src_total (chunks b') + blen b' = src_total (chunks b) + blen b /\ berr_ok b' /\
+  (blen b' < n -> blen b' < bsize b' -> berr b' <> None).
+Proof.
+  induction fuel as [|f IH]; intros b n b' H Hok; cbn [peek_loop] in H; [discriminate|].
+  destruct ((blen b <? n) && (blen b <? bsize b) &&
+            match berr b with None => true | Some _ => false end) eqn:Ec.
+  - unfold bfill in H. destruct (bsize b <=? blen b); [discriminate|].
+    pose proof (fill_loop_total 100 b Hok) as (F1 & F2).
+    apply IH in H; [|exact F2]. destruct H as (H1 & H2 & H3). split; [lia|]. split; assumption.
+  - inversion H; subst b'. split; [reflexivity|]. split; [exact Hok|].
+    intros H1 H2. destruct (berr b); [discriminate|]. lia.
+Qed.
+
+(* Peek, with the facts needed by step *)
+Theorem bPeek_safe2 : forall b n,
+  buf_inv b -> berr_ok b -> n <= bsize b -> n <= 262000 ->
+  exists bytes k e b', bPeek b n = Some (bytes, k, e, b') /\
+    buf_inv b' /\ berr_ok b' /\ bsize b' = bsize b /\ k = N.of_nat (length bytes) /\ k <= blen b' /\
+    blen b <= blen b' /\
+    src_total (chunks b') + blen b' = src_total (chunks b) + blen b /\
+    (e = None -> n <= blen b') /\ e <> Some BBufferFull.
+Proof.
+  intros b n Hinv Hok Hn Hn2. unfold bPeek.
+  destruct (peek_loop_spec big_fuel b n Hinv) as (b1 & P1 & P2 & P3 & P4).
+  { unfold berr_w, big_fuel. destruct (berr b); lia. }
+  rewrite P1. destruct (peek_loop_total _ _ _ _ P1 Hok) as (T1 & T2 & T3).
+  pose proof P2 as (I1 & I2 & I3).
+  destruct (bsize b1 <? n) eqn:E1; [lia|].
+  destruct (blen b1 <? n) eqn:E2.
+  - assert (Hne : berr b1 <> None) by (apply T3; lia).
+    destruct (berr b1) as [e1|] eqn:Eb; [|contradiction].
+    do 4 eexists. split; [reflexivity|].
+    unfold buf_inv, berr_ok. cbn [blen bsize bbuf berr chunks term consumed].
+    split; [split; [exact I1|split; [exact I2|exact I3]]|].
+    split; [discriminate|]. split; [exact P3|]. split; [exact I1|]. split; [lia|].
+    split; [exact P4|]. split; [exact T1|]. split; [intros Hc; discriminate|].
+    unfold berr_ok in T2. rewrite Eb in T2. exact T2.
+  - do 4 eexists. split; [reflexivity|]. split; [exact P2|]. split; [exact T2|]. split; [exact P3|].
+    split; [rewrite firstn_length; lia|]. split; [lia|]. split; [exact P4|]. split; [exact T1|].
+    split; [intros _; lia|discriminate].
+Qed.
+
+(* Discard within the buffer does not touch the source *)
+Lemma bDiscard_within : forall b n,
+  buf_inv b -> berr_ok b -> n <= blen b ->
+  exists b', bDiscard b n = Some (None, b') /\ buf_inv b' /\ berr_ok b' /\ bsize b' = bsize b /\
+             blen b' = blen b - n /\ chunks b' = chunks b.
+Proof.
+  intros b n Hinv Hok Hn. unfold bDiscard. destruct (n =? 0) eqn:E0.
+  - exists b. split; [reflexivity|]. split; [exact Hinv|]. split; [exact Hok|]. split; [reflexivity|]. split; [lia|reflexivity].
+  - unfold big_fuel. destruct (N.to_nat 262144) as [|f] eqn:Ef; [lia|]. cbn [discard_loop].
+    destruct (blen b =? 0) eqn:Eb; [lia|].
+    replace (n - N.min (blen b) n =? 0) with true by lia.
+    eexists. split; [reflexivity|]. destruct Hinv as (I1 & I2 & I3).
+    split; [unfold buf_inv; cbn; rewrite skipn_length; split; [lia|split; lia]|].
+    split; [exact Hok|]. split; [reflexivity|]. split; [cbn; lia|reflexivity].
+Qed.
+
+(* Discard in general: the invariants survive *)
+Lemma discard_loop_ok : forall fuel b remain e b',
+  discard_loop fuel b remain = Some (e, b') -> berr_ok b ->
+  berr_ok b' /\ src_total (chunks b') <= src_total (chunks b).
+Proof.
+  induction fuel as [|f IH]; intros b remain e b' H Hok; cbn [discard_loop] in H; [discriminate|].
+  assert (Hb1 : forall b1, (if blen b =? 0 then bfill b else Some b) = Some b1 ->
+                berr_ok b1 /\ src_total (chunks b1) <= src_total (chunks b)).
+  { intros b1 Hb. destruct (blen b =? 0).
+    - unfold bfill in Hb. destruct (bsize b <=? blen b); [discriminate|]. inversion Hb; subst b1.
+      pose proof (fill_loop_total 100 b Hok) as (F1 & F2). pose proof (fill_loop_spec 100 b) as Fs.
+      split; [exact F2|].
+      (* blen grows, total conserved *)
+      assert (blen b <= blen (fill_loop 100 b)).
+      { clear -b. revert b. induction 100%nat as [|k IHk]; intros b; cbn [fill_loop]; [cbn; lia|].
+        destruct (src_read (chunks b) (term b) (bsize b - blen b)) as [[[got n] err] cs].
+        destruct err; [cbn; lia|]. destruct (0 <? n); [cbn; lia|].
+        specialize (IHk (mkBuf (bsize b) (bbuf b ++ got) (blen b + n) (berr b) cs (term b) (consumed b))).
+        cbn in IHk. lia. }
+      lia.
+    - inversion Hb; subst. split; [exact Hok|lia]. }
+  destruct (if blen b =? 0 then bfill b else Some b) as [b1|] eqn:Eb1; [|discriminate].
+  destruct (Hb1 b1 eq_refl) as (K1 & K2).
+  destruct (remain - N.min (blen b1) remain =? 0).
+  - inversion H; subst. split; [exact K1|exact K2].
+  - cbn [berr] in H. destruct (berr b1) as [e1|] eqn:Ee.
+    + inversion H; subst. split; [unfold berr_ok; cbn; discriminate|exact K2].
+    + apply IH in H.
+      * destruct H as (H1 & H2). cbn in H2. split; [exact H1|lia].
+      * unfold berr_ok; cbn. rewrite Ee. discriminate.
+Qed.
